@@ -254,7 +254,11 @@ pub fn check_case(headers: &[H], filters: &[F]) -> Vec<(String, String)> {
 pub fn replay(case: &Value) -> Vec<String> {
     let headers: Vec<H> = serde_json::from_value(case["headers"].clone()).unwrap_or_default();
     let filters: Vec<F> = serde_json::from_value(case["filters"].clone()).unwrap_or_default();
-    let suffix = if case["universe"].as_str() == Some("prefix") { ":prefix-names/target-hash" } else { "" };
+    let suffix = match case["universe"].as_str() {
+        Some("prefix") => ":prefix-names/target-hash",
+        Some("twins") => ":names-differing-by-one-non-letter-bit",
+        _ => "",
+    };
     check_case(&headers, &filters).into_iter().map(|(s, _)| format!("{s}{suffix}")).collect()
 }
 
@@ -315,7 +319,53 @@ pub fn run(tier: Tier) -> i32 {
             outcomes.insert_str(&format!("{want:?}"));
         }
     });
+    // third universe: names of equal length that differ in one non-letter byte by bit 5 ('^' 0x5E / '~' 0x7E): a case-insensitive
+    // comparison folds letters only
+    let twin_headers: Vec<Vec<H>> = {
+        let names = ["X~Y", "X^Y"];
+        let mut v: Vec<Vec<H>> = vec![vec![]];
+        for a in names {
+            v.push(vec![(a.to_string(), "a".to_string())]);
+            for b in names {
+                v.push(vec![(a.to_string(), "a".to_string()), (b.to_string(), "b".to_string())]);
+            }
+        }
+        v
+    };
+    let twin_seqs: Vec<Vec<F>> = {
+        let mut singles = Vec::new();
+        for a in ACTIONS {
+            for n in ["X^Y", "x~y"] {
+                singles.push(F { action: a.to_string(), header: n.to_string(), value: format!("t{}", a.len()), hash: false });
+            }
+        }
+        let mut out: Vec<Vec<F>> = vec![vec![]];
+        let mut layer: Vec<Vec<F>> = vec![vec![]];
+        for _ in 0..3 {
+            let mut next = Vec::new();
+            for l in &layer {
+                for s in &singles {
+                    let mut n = l.clone();
+                    n.push(s.clone());
+                    next.push(n);
+                }
+            }
+            out.extend(next.iter().cloned());
+            layer = next;
+        }
+        out
+    };
+    par_range(ctx.threads, twin_seqs.len(), |i| {
+        let filters = &twin_seqs[i];
+        for headers in &twin_headers {
+            ctx.eval(1);
+            for (sig, what) in crate::common::run_case(|| json!({"headers": headers, "filters": filters, "universe": "twins"}), || check_case(headers, filters)) {
+                ctx.report(Violation { signature: format!("{sig}:names-differing-by-one-non-letter-bit"), what, case: json!({"headers": headers, "filters": filters, "universe": "twins"}), weight: (headers.len() + filters.len() * 4) as u64 });
+            }
+        }
+    });
     let mut cov = Coverage::new();
+    cov.set("bit5_twin_universe", json!({"header_lists": twin_headers.len(), "filter_sequences": twin_seqs.len(), "names": ["X~Y", "X^Y", "x~y"]}));
     cov.set("prefix_universe", json!({"header_lists": plists.len(), "filter_sequences": pseqs.len(), "header_names": PREFIX_HEADER_NAMES, "filter_names": PREFIX_FILTER_NAMES}));
     cov.set("distinct_nontrivial", json!(changed.len()))
         .set("rule", json!("full product header lists (<=3 over 3 names x 2 values) x filter sequences; distinct_nontrivial = distinct (list, sequence) pairs whose expected output differs from the input list"))
